@@ -465,6 +465,15 @@ var c19Templates = func() []c19Tpl {
 		{id: "join-same-alias", sql: "SELECT * FROM t JOIN t ON TRUE"},
 		{id: "cross-join-lateral", sql: "SELECT * FROM t CROSS JOIN LATERAL (SELECT $a AS k LIMIT $b) s"},
 		{id: "left-join-lateral", sql: "SELECT * FROM t LEFT JOIN LATERAL (SELECT c1 FROM t t3 WHERE t3.c1 > t.c1 LIMIT $a) s ON $b"},
+		// operands of different widths, rows without a partner on either side
+		{id: "full-join-wider-right", sql: "SELECT * FROM (SELECT c1 FROM t) n FULL JOIN t t2 ON n.c1 = t2.c1 + 1 AND n.c1 <> $a"},
+		{id: "full-join-narrower-right", sql: "SELECT * FROM t FULL JOIN (SELECT c1 FROM t) n ON t.c1 = n.c1 + 1 AND n.c1 <> $a"},
+		{id: "full-join-empty-wider", sql: "SELECT * FROM (SELECT c2 FROM t) n FULL JOIN e ON n.c2 = e.c1 OR $a"},
+		{id: "right-join-wider-right", sql: "SELECT * FROM (SELECT c1 FROM t) n RIGHT JOIN t t2 ON n.c1 = t2.c1 + 1 AND n.c1 <> $a"},
+		{id: "left-join-narrower-right", sql: "SELECT * FROM t LEFT JOIN (SELECT c1 FROM t) n ON t.c1 = n.c1 + 1 AND n.c1 <> $a"},
+		{id: "full-join-using-wider", sql: "SELECT * FROM (SELECT c1 FROM t WHERE c1 <> $a) n FULL JOIN t t2 USING (c1)"},
+		{id: "natural-full-join-narrower", sql: "SELECT * FROM t NATURAL FULL JOIN (SELECT c1 + 1 AS c1 FROM t WHERE c1 <> $a) n"},
+		{id: "cross-join-widths", sql: "SELECT * FROM (SELECT c1 FROM t LIMIT $a) n CROSS JOIN t t2"},
 		{id: "union", sql: "SELECT c1 FROM t UNION SELECT $a"},
 		{id: "union-field-mismatch", sql: "SELECT c1 FROM t UNION ALL SELECT $a, $b"},
 		{id: "intersect", sql: "SELECT c1 FROM t INTERSECT SELECT $a"},
@@ -589,6 +598,30 @@ var c19Templates = func() []c19Tpl {
 	}
 	for _, a := range c19TableAttrs {
 		t = append(t, c19Tpl{id: "alter-set-" + a, sql: "ALTER TABLE t SET " + a + " TO $a; SELECT * FROM t; SHOW FIELDS FROM t;", rollback: true})
+	}
+	// the clauses of one SELECT in combination: select list x source x WHERE x ORDER BY x LIMIT (the clauses share
+	// per-record work space and caches that each of them alone sizes correctly)
+	comboLists := []string{"c1", "c1, c2 || 'x' AS e", "c1, RANK() OVER (ORDER BY c1) AS r", "c3, SUM(c1) OVER (PARTITION BY c3) AS s, c2", "DISTINCT c3", "*",
+		"c3, COUNT(*) AS n", "*, ROW_NUMBER() OVER (ORDER BY c2) AS rn"}
+	comboSources := []string{"t", "(SELECT c1, c2, c3, ROW_NUMBER() OVER (ORDER BY c1) AS q FROM t) t", "t JOIN (SELECT c3 AS k FROM t GROUP BY c3) g ON t.c3 = g.k"}
+	comboWheres := []string{"", " WHERE c1 IS NOT NULL", " WHERE FALSE"}
+	comboOrders := []string{"", " ORDER BY c1", " ORDER BY c2 || 'x'", " ORDER BY c1 * -1 DESC, c3", " ORDER BY RANK() OVER (ORDER BY c2)", " ORDER BY 1", " ORDER BY r",
+		" ORDER BY COUNT(*) OVER (PARTITION BY c3), c2 || c3"}
+	comboLimits := []string{"", " LIMIT 2", " LIMIT 1 WITH TIES", " LIMIT 50 PERCENT OFFSET 1"}
+	for li, l := range comboLists {
+		for si, src := range comboSources {
+			for wi, w := range comboWheres {
+				for oi, o := range comboOrders {
+					for mi, m := range comboLimits {
+						g := ""
+						if strings.Contains(l, "COUNT(*) AS n") {
+							g = " GROUP BY c3"
+						}
+						t = append(t, c19Tpl{id: fmt.Sprintf("combo-%d.%d.%d.%d.%d", li, si, wi, oi, mi), sql: "SELECT " + l + " FROM " + src + w + g + o + m})
+					}
+				}
+			}
+		}
 	}
 	// every template that reads table t, once more over the empty table e (a header and no record)
 	n := len(t)
